@@ -9,24 +9,28 @@ VARIABLES l, samples, now, win, maxn, cfgid, all, viol
 ovars == <<l, samples, now, win, maxn, cfgid, all, viol>>
 \* an observation carries the line at which it was first made (`line`, ignored by the predicates) so that a
 \* violated pairwise predicate can name both observations; cfg = <<threshold configuration, source harness>>
-PW == INSTANCE S3HealthProps WITH new <- {}, all <- {}, probe <- [is |-> FALSE]
-P(o, al, pr) == INSTANCE S3HealthProps WITH new <- {o}, all <- al, probe <- pr
-NoProbe == [is |-> FALSE, health |-> "healthy", acked |-> FALSE, data |-> FALSE, code |-> 0]
+PW == INSTANCE S3HealthProps WITH new <- {}, all <- {}, probes <- {}
+P(o, al, pr) == INSTANCE S3HealthProps WITH new <- {o}, all <- al, probes <- pr
 OInit == l = 0 /\ samples = <<>> /\ now = 0 /\ win = 1 /\ maxn = 1 /\ cfgid = <<"", "">> /\ all = {} /\ viol = {}
 Step ==
   /\ l < Len(TraceLog) /\ l' = l + 1
   /\ LET e == TraceLog[l + 1]
-         isQ == e.ev \in {"Query", "Probe"}
-         s == PW!Summary(PW!InWindow(samples, now, win, maxn))
-         pr == IF e.ev = "Probe" THEN [is |-> TRUE, health |-> e.st, acked |-> e.acked, data |-> e.data, code |-> e.code]
-               ELSE NoProbe
-         o == [cfg |-> cfgid, n |-> s.n, tot |-> s.tot, ec |-> s.ec, st |-> IF isQ THEN e.st ELSE "healthy", line |-> l + 1]
+         isQ == e.ev \in {"Query", "Probe", "Produce2"}
+         \* rating that belongs to the window as it is after this line: Produce2 = the rating while the 2nd partition was handled
+         rated == IF e.ev = "Produce2" THEN e.items[2].st ELSE IF isQ THEN e.st ELSE "healthy"
+         bad == [ts |-> now, lat |-> 0, err |-> TRUE]
+         smp == IF e.ev = "Produce2" THEN PW!LastN(samples \o [i \in 1..e.nerr |-> bad], maxn) ELSE samples
+         s == PW!Summary(PW!InWindow(smp, now, win, maxn))
+         pr == IF e.ev = "Probe" THEN {[health |-> e.st, acked |-> e.acked, data |-> e.data, code |-> e.code]}
+               ELSE IF e.ev = "Produce2" THEN {[health |-> e.items[i].st, acked |-> e.items[i].acked, data |-> e.items[i].data, code |-> e.items[i].code] : i \in DOMAIN e.items}
+               ELSE {}
+         o == [cfg |-> cfgid, n |-> s.n, tot |-> s.tot, ec |-> s.ec, st |-> rated, line |-> l + 1]
          Same(a, b) == a.cfg = b.cfg /\ a.n = b.n /\ a.tot = b.tot /\ a.ec = b.ec /\ a.st = b.st
          seen == \E b \in all : Same(o, b)
          \* earliest earlier observation with which o violates the named pairwise predicate (0: none / not pairwise)
-         Partner(name) == LET bad == {b \in all : IF name = "C25_Monotone" THEN ~P(o, {b}, pr)!C25_Monotone
+         Partner(name) == LET conf == {b \in all : IF name = "C25_Monotone" THEN ~P(o, {b}, pr)!C25_Monotone
                                                    ELSE IF name = "C25_FunctionOfWindow" THEN ~P(o, {b}, pr)!C25_FunctionOfWindow ELSE FALSE}
-                          IN IF bad = {} THEN 0 ELSE (CHOOSE b \in bad : \A c \in bad : b.line <= c.line).line
+                          IN IF conf = {} THEN 0 ELSE (CHOOSE b \in conf : \A c \in conf : b.line <= c.line).line
      IN
      /\ win' = IF e.ev = "Reset" THEN e.win ELSE win
      /\ maxn' = IF e.ev = "Reset" THEN e.maxn ELSE maxn
@@ -34,7 +38,7 @@ Step ==
      /\ now' = IF e.ev = "Reset" THEN 0 ELSE IF e.ev = "Tick" THEN now + 1 ELSE now
      /\ samples' = IF e.ev = "Reset" THEN <<>>
                    ELSE IF e.ev = "Record" THEN PW!LastN(Append(samples, [ts |-> now, lat |-> e.lat, err |-> e.err]), maxn)
-                   ELSE samples
+                   ELSE smp
      /\ all' = IF isQ /\ ~seen THEN all \cup {o} ELSE all
      /\ viol' = IF ~isQ THEN viol ELSE viol \cup
           {<<l + 1, n, Partner(n)>> : n \in
